@@ -1672,7 +1672,9 @@ class DeleteMethod(Method):
         unused_href, path, r = app._get_resource_from_environ(request, environ)
         if r is None:
             return _send_not_found(request)
-        container_path, item_name = posixpath.split(path.rstrip("/"))
+        # The resource was looked up by its normalised path; derive the
+        # container and the member name from the same path ("/a/b/.." is "/a")
+        container_path, item_name = posixpath.split(posixpath.normpath(path))
         pr = app.backend.get_resource(container_path)
         if pr is None:
             return _send_not_found(request)
